@@ -783,6 +783,33 @@ Proof.
   unfold run in *. split; congruence.
 Qed.
 
+(* start-up from ANY world (whatever mode an earlier session of the same driver object was in) *)
+Lemma boot_mode_any N w negs evs :
+  let rs := snd (boot_loop 10 negs (w_p w)) in
+  let h := w_h (run N (boot negs w) evs) in
+  (length rs <= 10)%nat
+  /\ (h_safe h = true <->
+      exists rs0 a, rs = rs0 ++ [RAck a enable_frame] /\ forall x, In x rs0 -> confirms x = false)
+  /\ h_needs h = negb (h_safe h)
+  /\ (h_safe h = false -> host_frame h = h_out h).
+Proof.
+  cbv zeta.
+  assert (H4 : forall h, h_safe h = false -> host_frame h = h_out h).
+  { intros h H. unfold host_frame. now rewrite H. }
+  split; [|split; [|split; [|apply H4]]]; clear H4;
+    destruct (run_mode N evs (boot negs w)) as [Hs Hn]; rewrite ?Hs, ?Hn; clear Hs Hn;
+    unfold boot; destruct (boot_loop 10 negs (w_p w)) as [[p1 ok] rs] eqn:E;
+    apply boot_loop_spec in E as (_ & _ & _ & E4 & E5 & E6); cbn [snd w_h].
+  - exact E5.
+  - destruct ok; cbn [host_after_boot h_safe].
+    + split; [intros _|reflexivity]. destruct (E6 eq_refl) as (rs0 & r & -> & C & H0).
+      apply confirms_spec in C as [a ->]. now exists rs0, a.
+    + split; [discriminate|]. intros (rs0 & a & -> & _).
+      assert (false = true); [|discriminate]. apply E4. exists (RAck a enable_frame).
+      split; [apply in_or_app; right; now left|]. apply confirms_spec. now exists a.
+  - destruct ok; reflexivity.
+Qed.
+
 Lemma safelink_only_if_confirmed N p0 negs evs :
   let rs := snd (boot_loop 10 negs p0) in
   let h := w_h (session N p0 negs evs) in
@@ -791,23 +818,44 @@ Lemma safelink_only_if_confirmed N p0 negs evs :
       exists rs0 a, rs = rs0 ++ [RAck a enable_frame] /\ forall x, In x rs0 -> confirms x = false)
   /\ h_needs h = negb (h_safe h)
   /\ (h_safe h = false -> host_frame h = h_out h).
-Proof.
-  cbv zeta. unfold session.
-  assert (H4 : forall h, h_safe h = false -> host_frame h = h_out h).
-  { intros h H. unfold host_frame. now rewrite H. }
-  split; [|split; [|split; [|apply H4]]]; clear H4;
-    destruct (run_mode N evs (boot negs (world0 N p0))) as [Hs Hn]; rewrite ?Hs, ?Hn; clear Hs Hn;
-    unfold boot, world0; cbn [w_p]; destruct (boot_loop 10 negs p0) as [[p1 ok] rs] eqn:E;
-    apply boot_loop_spec in E as (_ & _ & _ & E4 & E5 & E6); cbn [snd w_h].
-  - exact E5.
-  - destruct ok; cbn [host_after_boot h_safe host0].
-    + split; [intros _|reflexivity]. destruct (E6 eq_refl) as (rs0 & r & -> & C & H0).
-      apply confirms_spec in C as [a ->]. now exists rs0, a.
-    + split; [discriminate|]. intros (rs0 & a & -> & _).
-      assert (false = true); [|discriminate]. apply E4. exists (RAck a enable_frame).
-      split; [apply in_or_app; right; now left|]. apply confirms_spec. now exists a.
-  - destruct ok; reflexivity.
-Qed.
+Proof. exact (boot_mode_any N (world0 N p0) negs evs). Qed.
+
+(* the mode of a later session of the same driver object depends on THAT session's start-up answers only:
+   w is the world the earlier sessions left behind, arbitrary *)
+Lemma safelink_per_session N w how negs evs :
+  let rs := snd (boot_loop 10 negs (w_p w)) in
+  let h := w_h (next_session N w (how, negs, evs)) in
+  (length rs <= 10)%nat
+  /\ (h_safe h = true <->
+      exists rs0 a, rs = rs0 ++ [RAck a enable_frame] /\ forall x, In x rs0 -> confirms x = false)
+  /\ h_needs h = negb (h_safe h)
+  /\ (h_safe h = false -> host_frame h = h_out h).
+Proof. exact (boot_mode_any N (reopen_world N how w) negs evs). Qed.
+
+(* what a new start-up begins from *)
+Lemma reopen_state N how w :
+  let h := w_h (reopen_world N how w) in
+  h_safe h = false /\ h_up h = false /\ h_down h = true /\ h_out h = [255] /\ h_retry h = N
+  /\ h_needs h = h_needs (w_h w) /\ h_errs h = h_errs (w_h w)
+  /\ h_outq h = match how with Restart => h_outq (w_h w) | Reconnect => None end
+  /\ h_inq h = match how with Restart => h_inq (w_h w) | Reconnect => [] end
+  /\ w_p (reopen_world N how w) = w_p w /\ w_last (reopen_world N how w) = RNone.
+Proof. repeat split. Qed.
+
+Lemma history_snoc N p0 negs evs more s :
+  history N p0 negs evs (more ++ [s]) = next_session N (history N p0 negs evs more) s.
+Proof. unfold history. now rewrite fold_left_app. Qed.
+
+Lemma safelink_per_session_history N p0 negs evs more how negs' evs' :
+  let before := history N p0 negs evs more in
+  let rs := snd (boot_loop 10 negs' (w_p before)) in
+  let h := w_h (history N p0 negs evs (more ++ [(how, negs', evs')])) in
+  (length rs <= 10)%nat
+  /\ (h_safe h = true <->
+      exists rs0 a, rs = rs0 ++ [RAck a enable_frame] /\ forall x, In x rs0 -> confirms x = false)
+  /\ h_needs h = negb (h_safe h)
+  /\ (h_safe h = false -> host_frame h = h_out h).
+Proof. cbv zeta. rewrite history_snoc. apply safelink_per_session. Qed.
 
 (* the world-level negotiation is the host-level loop (the one tied on raw dongle answers) run on the
    answers the channel and the peer produce *)
